@@ -20,7 +20,7 @@ ASSUMPTIONS = ["nvmon.ref exact reference model", "explored domain of DESIGN.md 
 FLOORS = {'quick': {'refine': 150, 'probe-lib': 2000, 'probe-defn': 2000, 'structure': 150, 'untouched': 60, 'helper': 60},
           'thorough': {'refine': 2000, 'probe-lib': 30000}}
 MANDATORY_TAGS = ['pdim1', 'pdim2', 'pdim3', 'rational', 'density2', 'density3', 'dirs:partial', 'dirs:all', 'helper:knot_list',
-                  'helper:add_knot_list', 'unnormalized']
+                  'helper:add_knot_list', 'unnormalized', 'helper:single-knot-list', 'helper:knot_list+add_knot_list', 'helper:tuple-kv']
 TECHNIQUE = ("runtime monitoring: exact reference-model oracle + structural knot-vector oracle after every refine_knotvector / "
              "knot_refinement call of a seeded workload")
 LEVEL_TEXT = ("Each refinement is followed by exact comparison with the original shape and by the dyadic-knot / multiplicity / "
@@ -193,11 +193,39 @@ def check_helper(case, ctx):
         kw['add_knot_list'] = list(extra)
         knot_list = sorted(set(base + extra))
     ctx.tag('helper:' + mode, 'density%d' % density)
+    if mode == 'knot_list' and rng.random() < 0.3:
+        # an explicit list naming ONE knot (possibly twice): that knot is raised to multiplicity p, nothing is bisected
+        v = rng.choice(kw['knot_list'])
+        kw['knot_list'] = [v] * rng.randint(1, 2)
+        knot_list = [v]
+        ctx.tag('helper:single-knot-list')
+    if mode == 'add_knot_list' and rng.random() < 0.4:
+        # base list given explicitly (as list or tuple) together with additional knots
+        kw['knot_list'] = rng.choice([list, tuple])(base)
+        ctx.tag('helper:knot_list+add_knot_list')
+    if rng.random() < 0.3:
+        U = tuple(U)          # documented: list or tuple
+        ctx.tag('helper:tuple-kv')
     ctx.nontriv(True)
     P0 = copy.deepcopy(P)
     U0 = list(U)
-    newP, newU = helpers.knot_refinement(p, U, P, **kw)
-    # (whether the helper may alias / update rows of its control-point argument is not part of the property: not judged)
+    kw0 = copy.deepcopy(kw)
+    from geomdl.exceptions import GeomdlException
+    try:
+        newP, newU = helpers.knot_refinement(p, U, P, **kw)
+    except GeomdlException:
+        # nothing to insert (every listed knot already has multiplicity p and there is no midpoint): refusing is legitimate
+        if 'knot_list' in kw and len(set(kw['knot_list'])) == 1 and 'add_knot_list' not in kw and \
+                sum(1 for k in U0 if k == kw['knot_list'][0]) >= p:
+            ctx.ok('helper')
+            return
+        raise
+    # the caller's arguments still describe what they described before the call (the original shape and the requested knots)
+    ctx.check(P == P0 and list(U) == U0, 'helper/input-modified', 'knot_refinement(%s, density=%d, %s layout) modified the control points / knot '
+              'vector it was given: the original shape held by the caller changed' % (mode, density, 'rows-of-points' if rows else 'flat'),
+              what='helper')
+    ctx.check(all(list(kw[k]) == list(kw0[k]) for k in kw if k != 'density'), 'helper/input-modified', 'knot_refinement(%s) modified the knot_list / '
+              'add_knot_list argument it was given' % mode, what='helper')
     err = structure_dir(p, U0, list(newU), density, knot_list)
     ctx.check(err is None and len(newP) == len(newU) - p - 1, 'helper/structure', 'knot_refinement(%s, density=%d): %s'
               % (mode, density, err or 'len(ctrlpts) %d != len(kv)-p-1 = %d' % (len(newP), len(newU) - p - 1)), what='helper',
